@@ -157,7 +157,7 @@ def run(pid, tier_, replay=None):
     split = bp.split_vectors(binp, tier_) if pid in ("C05", "C09") and bp.SPLIT_AVAILABLE else None
 
     # 4b. white-box conformance: every recorded execution must be a behaviour of BatchProcessor.tla (BPTrace.tla)
-    conf = bp.run_bptrace(merged, timeout=900 if quick else 3000)
+    conf = bp.run_bptrace(merged, timeout=180 if quick else 3000)
 
     # 4c. the processor's own instruments, read once per scenario, against the recorded steps (BPTelemetry.tla; drift only)
     tel = bp.run_bptel(merged, timeout=900 if quick else 3000)
